@@ -16,9 +16,14 @@ TmplPayloads ==
      << Rep("V"), Rep("IDr"), Rep("CERTREQ") >>,
      << >> >>
 Unk(ty, body) == [k |-> "UNK", t |-> ty, crit |-> 0, rsv |-> 0, body |-> body]
+WD(sz, n, sd) == [k |-> "D", crit |-> 0, rsv |-> 0, proto |-> 3, spisz |-> sz, num |-> n, spis |-> [i \in 1..n |-> D(sz, sd + i)]]
 WTemplates == << << Unk(200, << 1, 2, 3 >>), Unk(201, << >>), PayloadPlain(Rep("N")) >>,
                  << PayloadPlain(Rep("NONCE")), Unk(1, D(5, 9)), Unk(32, << 7 >>) >>,
-                 << Unk(255, << >>) >> >>
+                 << Unk(255, << >>) >>,
+                 \* Delete payloads that are consistent in themselves (body = count x SPI size) for SPI sizes OTHER than 4 -- the size octet and the
+                 \* count changed TOGETHER: whatever the decoder makes of them, what it accepts stays stable under decode / encode
+                 << WD(8, 1, 1) >>, << WD(8, 2, 2) >>, << WD(5, 1, 3) >>, << WD(16, 3, 4) >>, << WD(3, 4, 5) >>, << WD(1, 4, 6) >>, << WD(255, 1, 7) >>,
+                 << PayloadPlain(Rep("N")), WD(8, 2, 8), PayloadPlain(Rep("V")) >>, << WD(12, 1, 9), WD(4, 2, 10) >> >>
 NT == Len(TmplPayloads) + Len(WTemplates)
 Tmpl(i) == IF i <= Len(TmplPayloads) THEN PlainMsg(Msg(1, TmplPayloads[i]))
            ELSE [PlainMsg(Msg(1, << >>)) EXCEPT !.payloads = WTemplates[i - Len(TmplPayloads)]]
@@ -63,5 +68,6 @@ BodyStep(b) ==
 Emit == stage = 3 => LET b == Mutant cv == CursorVector(b, s.nm) IN
                      PrintT(ToJson([cv EXCEPT !.steps = @ \o BodyStep(b)]))
 \* the untouched template is canonical and classified as a value: the templates themselves are sound
-Sound == stage = 1 => LET b == EncMsgW(Tmpl(t)) IN (t <= Len(TmplPayloads) => Canonical(b)) /\ Classify(b).class = "value"
+\* (the Delete templates with other SPI sizes are outside the domain: no claim about how they are classified)
+Sound == stage = 1 => LET b == EncMsgW(Tmpl(t)) IN (t <= Len(TmplPayloads) => Canonical(b)) /\ (t <= Len(TmplPayloads) + 3 => Classify(b).class = "value")
 =============================================================================
